@@ -30,6 +30,8 @@ type Driver struct {
 	Budget  time.Duration // wall budget for the exploration phase (0 = none)
 	Out     *os.File
 	probe   string
+	genMu    sync.Mutex
+	genCache map[int]*genChunk
 }
 
 // Probe runs `simworker probe` in a fresh process.
@@ -281,6 +283,13 @@ func (d *Driver) explore(e Engine, n int, a *agg) (done int, stopped bool) {
 					for i := lo; i < j.hi; i++ {
 						reqs = append(reqs, &Request{Property: d.Prop, VerifSeed: d.Seed, Tier: d.Tier, Idx: i, WantScenario: i%97 == 0})
 					}
+					if per == 1 && len(reqs) == 1 {
+						// two stages: the scenario comes from a generator process, the execution happens
+						// in a process that has done nothing before
+						if sc := d.pregenerated(reqs[0].Idx); sc != nil {
+							reqs[0] = &Request{Scenario: sc, Idx: reqs[0].Idx, WantScenario: reqs[0].WantScenario}
+						}
+					}
 					resps, died, stderr := d.runRequests(reqs, 0)
 					for _, r := range resps {
 						a.add(r.Idx, r)
@@ -339,6 +348,51 @@ func (d *Driver) explore(e Engine, n int, a *agg) (done int, stopped bool) {
 	close(jobs)
 	wg.Wait()
 	return doneCount, stop
+}
+
+// pregenerated returns scenario idx, generated in a separate generator process (in chunks).
+func (d *Driver) pregenerated(idx int) *Scenario {
+	const chunk = 128
+	base := idx / chunk * chunk
+	d.genMu.Lock()
+	ch, ok := d.genCache[base]
+	if !ok {
+		ch = &genChunk{done: make(chan struct{})}
+		if d.genCache == nil {
+			d.genCache = map[int]*genChunk{}
+		}
+		d.genCache[base] = ch
+		d.genMu.Unlock()
+		var reqs []*Request
+		for i := base; i < base+chunk; i++ {
+			reqs = append(reqs, &Request{Property: d.Prop, VerifSeed: d.Seed, Tier: d.Tier, Idx: i, GenOnly: true})
+		}
+		resps, _, _ := d.runRequests(reqs, 0)
+		ch.scs = map[int]*Scenario{}
+		for _, r := range resps {
+			if r.Scenario != nil {
+				ch.scs[r.Idx] = r.Scenario
+			}
+		}
+		close(ch.done)
+	} else {
+		d.genMu.Unlock()
+	}
+	<-ch.done
+	sc := ch.scs[idx]
+	d.genMu.Lock()
+	ch.used++
+	if ch.used >= chunk {
+		delete(d.genCache, base) // every scenario of the chunk has been handed out
+	}
+	d.genMu.Unlock()
+	return sc
+}
+
+type genChunk struct {
+	done chan struct{}
+	scs  map[int]*Scenario
+	used int
 }
 
 // KnownFindings file.
